@@ -84,27 +84,51 @@ def run(cfg):
         R.violation('R1', c, f.loc, 'the two implementations differ when %s: C++ gives %s, Python gives %s' %
                     (d[0], _show_outcome(d[1]), _show_outcome(d[2])), detail=['%d differing orderings' % len(diffs)])
     # callers pass the four rule fields in the same order
+    # (the arguments are compared as canonical terms of the path summary: locals, the order of a sum and the way the
+    # result is stored do not matter)
+    from .gnf import poly_leaves
     gt = lib.fn('ace_time::ExtendedZoneProcessor::getTransitionTime')
-    calls = [e for e in all_exprs(gt.body) if e.k == 'call' and e.a[0] == CXX_FN]
-    ok = False
-    if len(calls) == 1 and len(calls[0].a[2]) == 4:
-        a = calls[0].a[2]
-        names = []
-        for x in a[1:]:
-            while x.k == 'cast':
-                x = x.a[2]
-            names.append(x.a[0].split('::')[-1] if x.k == 'call' else None)
-        yr = a[0]
-        ok = names == ['inMonth', 'onDayOfWeek', 'onDayOfMonth'] and any(v.k == 'var' and v.a[0].endswith('kEpochYear') for v in walk_expr(yr))
+    sxg = SymExec(fold_global=lib.global_value)
+    sxg.trace_locals = {s.a[0] for s in walk_stmts(gt.body) if s.k == 'decl'}
+    sg = sxg.run(gt.name, gt.body, {})
+    ytiny, rule = gt.params[0][0], gt.params[1][0]
+    epoch = lib.const('ace_time::LocalDate::kEpochYear')
+    want = [Poly.atom(('sym', ytiny)) + Poly.const(epoch)] + \
+        [Poly.atom(('fn', 'ace_time::extended::ZoneRuleBroker::' + m, (Poly.atom(('sym', rule)).key(),))) for m in ('inMonth', 'onDayOfWeek', 'onDayOfMonth')]
+    ok, seen_call = bool(sg.paths), False
+    for gd, kind, res, eff in sg.paths:
+        keys = ([res] if res is not None else []) + [v for _t, v in eff]
+        calls = set()
+        for k_ in keys:
+            calls |= {a for a in poly_leaves(_P(k_), kinds=('fn',)) if a[1] == CXX_FN}
+        if not calls:
+            continue
+        seen_call = True
+        for a in calls:
+            if [_P(x) for x in a[2]] != want:
+                ok = False
     R.instance('R1', gt.name, gt.loc)
-    if not ok:
+    if not (ok and seen_call):
         R.violation('R1', gt.name, gt.loc, 'does not call calcStartDayOfMonth(yearTiny + kEpochYear, rule.inMonth(), rule.onDayOfWeek(), rule.onDayOfMonth())')
     zs = py.load(cfg, 'tools/zonedb/zone_specifier.py')
     pg = zs.fn('_get_transition_time')
-    pc = [n for n in ast.walk(pg.node) if isinstance(n, ast.Call) and isinstance(n.func, ast.Name) and n.func.id == 'calc_day_of_month']
-    okp = len(pc) == 1 and [ast.unparse(a) for a in pc[0].args] == ['year', 'rule.inMonth', 'rule.onDayOfWeek', 'rule.onDayOfMonth']
+    sxp = SymExec(lang='py')
+    sxp.trace_locals = {s.a[0].a[0] for s in walk_stmts(pg.body) if s.k == 'assign' and s.a[0].k == 'var'}
+    spg = sxp.run(pg.name, pg.body, {})
+    wantp = [Poly.atom(('sym', 'year'))] + [Poly.atom(('sym', 'rule.' + m)) for m in ('inMonth', 'onDayOfWeek', 'onDayOfMonth')]
+    okp, seen_call = bool(spg.paths), False
+    for gd, kind, res, eff in spg.paths:
+        keys = ([res] if res is not None else []) + [v for _t, v in eff]
+        calls = set()
+        for k_ in keys:
+            calls |= {a for a in poly_leaves(_P(k_), kinds=('fn',)) if a[1] == 'calc_day_of_month'}
+        if calls:
+            seen_call = True
+        for a in calls:
+            if [_P(x) for x in a[2]] != wantp:
+                okp = False
     R.instance('R1', 'zonedb.zone_specifier._get_transition_time', pg.loc)
-    if not okp:
+    if not (okp and seen_call):
         R.violation('R1', 'zonedb.zone_specifier._get_transition_time', pg.loc, 'does not call calc_day_of_month(year, rule.inMonth, rule.onDayOfWeek, rule.onDayOfMonth)')
     # ---- R2 spill sets from the C++ summary
     M = Poly.atom(('sym', 'M'))
@@ -141,29 +165,25 @@ def run(cfg):
     R.analysed['spill_next_year(dom in December)'] = sorted(spill_next)
     tr = py.load(cfg, 'tools/tzdb/transformer.py')
     tf = tr.fn('Transformer._create_rules_with_on_day_expansion')
+    # which (month, weekday, day-of-month) combinations the transformer refuses is read off by interpreting the function
+    # (E-SEQ) on one-rule policies; the parser of the ON field is abstracted to the pair it returns, reporting is dropped
+    from .aeval import AEval, AObj, Raised
     rej = {1: set(), 12: set()}
-    guards = []
-    for n in ast.walk(tf.node):
-        if isinstance(n, ast.If) and any(isinstance(s, ast.Expr) and isinstance(s.value, ast.Call) and getattr(s.value.func, 'id', None) == '_add_reason'
-                                         and 'cannot shift' in ast.unparse(s.value) for s in n.body):
-            guards.append(n)
-    if len(guards) < 2:
-        raise AnalysisError('%s: year-spill rejection guards not found (anchor moved)' % tf.loc)
-    outer = None
-    for n in ast.walk(tf.node):
-        if isinstance(n, ast.If) and any(gd in n.body for gd in guards):
-            outer = n
-    for month in (1, 12):
-        for dom in range(-31, 32):
-            env = {'on_day_of_month': dom, 'on_day_of_week': 1, 'rule': {'inMonth': month}}
-            try:
-                if outer is not None and not eval(compile(ast.Expression(outer.test), '<guard>', 'eval'), {}, env):
-                    continue
-                for gd in guards:
-                    if eval(compile(ast.Expression(gd.test), '<guard>', 'eval'), {}, env):
-                        rej[month].add(dom)
-            except Exception as e:
-                raise AnalysisError('%s: cannot evaluate the rejection guard (%s)' % (tf.loc, e))
+    intr = {'_parse_on_day_string': lambda ev, recv, args: args[0], '_add_reason': lambda ev, recv, args: None,
+            'logging.info': lambda ev, recv, args: None, 'info': lambda ev, recv, args: None, '_print_removed_map': lambda ev, recv, args: None,
+            '_merge_reasons': lambda ev, recv, args: None}
+    try:
+        for month in (1, 12):
+            for dom in range(-31, 32):
+                rule = {'onDay': (1, dom), 'inMonth': month}
+                me = AObj({'all_removed_policies': {}}, oid='self', cls='Transformer')
+                out = AEval(module=tr, intrinsics=intr).call_function('Transformer._create_rules_with_on_day_expansion', [{'P': [rule]}], recv=me)
+                if not isinstance(out, dict):
+                    raise AnalysisError('%s: the function does not return the map of accepted policies' % tf.loc)
+                if 'P' not in out:
+                    rej[month].add(dom)
+    except Raised as r_:
+        raise AnalysisError('%s: interpretation raised %s' % (tf.loc, r_.what))
     R.analysed['rejected(dom in January)'] = sorted(rej[1])
     R.analysed['rejected(dom in December)'] = sorted(rej[12])
     for name, need, have, month in (('previous-year', spill_prev, rej[1], 'Jan'), ('next-year', spill_next, rej[12], 'Dec')):
